@@ -90,6 +90,8 @@ type Case struct {
 	// real-threads stress case (no steps): configuration and the round in which the barrier broke
 	Stress *StressCfg `json:"stress,omitempty"`
 	Round  int        `json:"round,omitempty"`
+	// sequential real-threads scenario "stop, late registrations, second stop" (latereg_test.go)
+	Late *LateCfg `json:"late,omitempty"`
 }
 
 // StressCfg: one configuration of the real-threads barrier stress.
@@ -1148,6 +1150,10 @@ func TestVerif(t *testing.T) {
 		if err := vlib.ReplayCase(env.Replay, &c); err != nil {
 			t.Fatalf("cannot load replay: %v", err)
 		}
+		if c.Late != nil {
+			replayLate(*c.Late)
+			return
+		}
 		if c.Stress != nil {
 			// a stress case names a configuration; whether a given round hits the window depends on the
 			// real scheduler, so the replay runs that configuration for many rounds
@@ -1235,6 +1241,13 @@ func TestVerif(t *testing.T) {
 					Case:   lines})
 			}
 		}
+	}
+	// sequential real-threads pass (deterministic, every run, first): stop / StopAndWait / parent cancel, late
+	// registrations, a second Stop / StopAndWait that has to return (latereg_test.go). When it reports, the run
+	// ends here: with a Stop that never returns every later scenario that stops a group twice would hang (in a
+	// bubble for real: a goroutine parked on an RWMutex is not durably blocked) until the watchdog ends the run.
+	if lateRegistrationPhase(res) {
+		return
 	}
 	// real-threads stress of the barrier clause: a bounded number of rounds, ~1.5 s (quick), more in the
 	// thorough tier / escalated search
